@@ -1,10 +1,10 @@
 #!/bin/bash
-# usage: run_all.sh <tier> [ids...]   -- runs checks sequentially from this checkout, one summary line each
+# usage: [PER_CHECK_TIMEOUT=secs] run_all.sh <tier> [ids...]   -- runs checks sequentially from this checkout, one summary line each
 cd "$(dirname "$0")/.."
 tier=${1:-quick}; shift
 ids=${@:-C01 C02 C03 C04 C05 C06 C07 C08 C09 C10 C11 C12 C13 C14 C15 C16 C17 C18 C19 C20}
 mkdir -p logs
 for p in $ids; do
-  /usr/bin/time -f "%e s wall, %M KB maxrss" /venv/bin/python -m bpmc.run $p --tier $tier > logs/run_${tier}_$p.log 2>&1
+  /usr/bin/time -f "%e s wall, %M KB maxrss" timeout ${PER_CHECK_TIMEOUT:-0} /venv/bin/python -m bpmc.run $p --tier $tier > logs/run_${tier}_$p.log 2>&1
   echo "$p exit=$? $(grep -c '^VIOLATION' logs/run_${tier}_$p.log) violations; $(grep -c '^KNOWN-FINDING' logs/run_${tier}_$p.log) known; $(grep "^$p tier" logs/run_${tier}_$p.log | cut -c1-170) | $(tail -1 logs/run_${tier}_$p.log)"
 done
